@@ -104,4 +104,11 @@ C35_NotShipped(locals, uploadCompacted, objs, listed, blabels, cur) ==
 C35_RecordedUnseen(uploaded, everComplete) == uploaded \ everComplete
 CompleteBlocks(objs, listed) == { b \in BlocksIn(objs) : BlockComplete(objs, listed, b) }
 
+(* ------------------------ C35, algorithm level -------------------------- *)
+(* What Shipper.Sync writes into thanos.shipper.json when it returns nil: the local blocks it    *)
+(* uploaded or found in the bucket (= the eligible ones) and the local blocks it had recorded    *)
+(* before.  Used for DRIFT only.                                                                  *)
+AlgoShipperFile(locals, uploadCompacted, before) ==
+    { x.b : x \in { y \in locals : C35_Eligible(y, uploadCompacted) \/ y.b \in before } }
+
 =============================================================================
